@@ -13,6 +13,7 @@ Image.data); Props/C12.v states unbounded theorems about that model. This module
 import json
 import os
 import random
+import re
 
 from vlib import OkV, Diag, Internal, coq_str, coq_z
 
@@ -144,7 +145,7 @@ def gen_layout(rng, malformed):
                 inputs.append(['align', a])
         name = mnames[k] if not (malformed and rng.random() < 0.1) else 'flash'
         mems.append({'name': name, 'location': loc, 'size': 0x10000, 'inputs': inputs})
-        loc += rng.choice([0x1000, 0x10000, 64, 0x100])
+        loc += rng.choice([0x400, 0x800, 64, 0x100])      # gaps stay small: Image.data of a misplaced section is rendered as a list literal
     # SectionData / SymbolDefinition names must be unique for the asserts to pass; keep first uses
     if not malformed:
         seen = set()
@@ -599,7 +600,8 @@ def oracle_sweep(ctx, cases, outs):
         n += 1
         bad = spec_check(case, out)
         if bad:
-            ctx.violation({'fn': 'link', 'key': 'spec:' + bad[0].split(':')[0][:40], 'what': bad[:4], 'case': case,
+            key = re.sub(r'(object|section|symbol|image|memory|relocation) [^ :]+', r'\1', bad[0]).split(':')[-1][:60]
+            ctx.violation({'fn': 'link', 'key': 'spec:' + re.sub(r'\d+', 'N', key), 'what': bad[:4], 'case': case,
                            'actual': 'Diag' if out is Diag else ('exception' if out is Internal else 'linked'),
                            'how_to_replay': replay_cmd(case)})
     return n
@@ -889,15 +891,23 @@ def replay(rec):
 
 
 MANIFEST = {
-    'text': 'proof: unbounded Coq theorems about a hand model of the ppci linker (inject_object, merge_global_symbol, '
-            'layout_sections, check_undefined_symbols, Image.data): every contribution is placed at an offset that is a '
-            'multiple of its alignment after minimal zero padding, its bytes and its symbols (shifted by that offset) and '
-            'relocations are preserved through the whole link, placed sections are aligned, inside their memory, ordered '
-            'and disjoint provided no section is placed twice, Image.data is the gap-filled concatenation, and the three '
-            'error classes are raised exactly for duplicate definitions, undefined globals and overfull memories',
-    'note': 'trusted: Coq kernel; the hand model, which is compared with the real linker on every run (whole output object, '
-            '300 links quick / 3000 thorough, plus an independent Spec oracle on the real output). Relocation application '
-            'and relaxation are C11/C13. Recorded findings: section placed twice, section never placed, SectionData copied '
+    'text': 'proof: 20 unbounded Coq theorems (all object lists, all layouts, no fuel hypothesis) about a hand model of the ppci '
+            'linker (api.link up to check_undefined_symbols: inject_object, merge_global_symbol, inject_symbol, layout_sections, '
+            'Image.data): every input section is recorded at an offset that is the least multiple of its alignment after the '
+            'previous contents (minimal zero padding), its bytes, its defined symbols (value + that offset, same section, name, '
+            'binding) and its relocations (offset + that offset, remapped symbol id) are present unchanged in the final object; '
+            'provided no section is placed twice by the layout, every placed section is aligned, inside [location, location+size) '
+            'of its memory, the sections of an image are ordered and disjoint and Image.data equals the zero-filled memory '
+            'contents; a successful link has no global defined twice and (non-partial) no undefined global; the three '
+            'diagnostics are characterised exactly at the step that raises them. Refutations (vm_compute, replayed on the '
+            'implementation): a section placed twice silently overflows the first memory; non-multiple alignments break the '
+            'final-address alignment.',
+    'note': 'trusted: Coq kernel; the hand model coq/Model/Linker.v, which is compared with the real linker on every run '
+            '(whole output object field by field, 300 links quick / 3000 thorough, through ppci.api.link for relocation-free '
+            'inputs and through a Linker subclass with do_relaxations/do_relocations stubbed otherwise) and whose Spec is '
+            'asserted independently on the real output by a Python oracle. Relocation application and relaxation are C11/C13. '
+            'Whole-link "only if" directions of the error theorem (Diag implies cause) are proved at step level only. '
+            'Known findings: section placed twice, KeyError on section-less defined symbol when relinking, SECTIONDATA copied '
             'before relocation.',
     'technique': 'Coq proof over hand model + differential correspondence + independent oracle',
 }
